@@ -124,11 +124,16 @@ def make_sampler(spec, shared_domains=None):
 class Probe:
     """Residual that records what it is given."""
 
-    def __init__(self, args, coef, out_dim, grad_of=None):
+    def __init__(self, args, coef, out_dim, grad_of=None, defaults=(), extra=None):
         self.args, self.coef, self.out_dim, self.grad_of = list(args), dict(coef), out_dim, grad_of
         self.calls = []
+        self.defaults = [a for a in defaults if a in args]      # supplied by the condition, but declared with a default
+        self.extra = dict(extra or {})                          # never supplied: the declared default must arrive
+        sig = [a for a in args if a not in self.defaults] + ["%s=-7.5" % a for a in self.defaults] + \
+              ["%s=%r" % (n, float(v)) for n, v in self.extra.items()]
+        allnames = list(args) + list(self.extra)
         src = "def resid(%s):\n    return _probe._run(dict(%s))\n" % (
-            ", ".join(args), ", ".join("%s=%s" % (a, a) for a in args))
+            ", ".join(sig), ", ".join("%s=%s" % (a, a) for a in allnames))
         ns = {"_probe": self}
         exec(src, ns)
         self.fn = ns["resid"]
@@ -151,6 +156,8 @@ class Probe:
             else:
                 term = self.coef.get(a, 1.0) * v
             total = term if total is None else total + term
+        for n in self.extra:
+            total = total + 0.5 * kw[n]
         if self.grad_of and self.grad_of[0] in kw and self.grad_of[1] in kw:
             u, z = kw[self.grad_of[0]], kw[self.grad_of[1]]
             if z.requires_grad:
@@ -187,7 +194,8 @@ def build_condition(cs, shared=None):
     if cs.get("use_param"):
         param = shared.get("param") or tp.models.Parameter(float(cs.get("k0", 0.7)), sp["k"])
     b["param"] = param
-    probe = Probe(cs["resid_args"], cs.get("coef", {}), cs["out_dim"], tuple(cs["grad_of"]) if cs.get("grad_of") else None)
+    probe = Probe(cs["resid_args"], cs.get("coef", {}), cs["out_dim"], tuple(cs["grad_of"]) if cs.get("grad_of") else None,
+                  defaults=cs.get("resid_defaults") or (), extra=cs.get("resid_extra"))
     b["probe"] = probe
     kw = {"name": cs.get("name", kind), "weight": float(cs.get("weight", 1.0))}
     if param is not None:
@@ -289,9 +297,18 @@ def check_eval(b, loss, n_before, out, stats, prop="C04", eval_no=0):
         return
     call = probe.calls[-1]
     got_names = sorted(k for k in call if k != "__grad__")
-    if got_names != sorted(cs["resid_args"]):
-        out.append(viol(prop, "names", "residual-received-other-names", kind, got=got_names, want=sorted(cs["resid_args"])))
+    want_names = sorted(list(cs["resid_args"]) + list(cs.get("resid_extra") or {}))
+    if got_names != want_names:
+        out.append(viol(prop, "names", "residual-received-other-names", kind, got=got_names, want=want_names))
         return
+    for n_, v_ in (cs.get("resid_extra") or {}).items():
+        if isinstance(call[n_], torch.Tensor) or float(call[n_]) != float(v_):
+            out.append(viol(prop, "args", "absent-optional-argument-did-not-get-its-default", kind, name=n_))
+            return
+    for n_ in (cs.get("resid_defaults") or ()):
+        if n_ in call and not isinstance(call[n_], torch.Tensor):
+            out.append(viol(prop, "args", "supplied-argument-replaced-by-its-default", kind, name=n_, got=float(call[n_])))
+            return
     if not b["samples"] or b["samples"][-1] is None:
         return
     smp = b["samples"][-1]
